@@ -51,6 +51,10 @@ type JobSpec struct {
 	Exec    []string         `json:"exec_pkgs,omitempty"`
 	Reach   []string         `json:"must_reach,omitempty"`
 	MaxStep int              `json:"max_steps,omitempty"`
+	// EngineOnly: the harness depends on a modelled environment (recorded timers, thread schedules,
+	// modelled files/frameworks) that the plain native replay cannot reproduce; counterexamples are
+	// reported with their replay file but are not re-run natively.
+	EngineOnly bool `json:"engine_only,omitempty"`
 }
 
 type Job struct {
